@@ -109,6 +109,61 @@ def judge_slash(pid):
     return fn
 
 
+def witness_search(pid, dh, wd, h, upto):
+    """After a model/implementation disagreement: look for a concrete slashable pair on the implementation.
+    For every signature the implementation released in h.ops[:upto+1] and every spelling under which the same
+    key is addressed in the history, replay the vote with another root (double vote / double proposal), a
+    surrounding and a surrounded vote; judge everything released with the Lean predicate."""
+    ops = h["ops"][:upto + 1]
+    rel = hist.released(ops, h["impl"], h["accts"])
+    spell = {}
+    for op in h["ops"]:
+        f = op.split()
+        adrs = []
+        if f[0] in ("att", "prop"):
+            adrs = [f[3]]
+        elif f[0] == "atts":
+            adrs = [it.split(",")[0] for it in f[4].split(";")]
+        for a in adrs:
+            k = hist.key_of_addr(a, h["accts"])
+            if k is not None:
+                spell.setdefault(k, set()).add(a)
+    for a in h["accts"]:
+        spell.setdefault(a.pk, set()).update(["n:" + hx(a.path), "k:" + a.pk.hex(), "k:" + a.pk.hex() + "00"])
+    wit = []
+    for (k, key, data, sig, i, j, st) in rel[-12:]:
+        f = data.split(",")
+        for adr in sorted(spell.get(key, []))[:6]:
+            if k == "att" and pid == "C01":
+                s_, t_ = int(f[4]), int(f[6])
+                r2 = "b9" * 32
+                base = "%s,%s,%s,%s" % (f[0], f[1], f[2], r2)
+                wit.append("att %s - %s %s,%d,%s,%d,%s -" % (hx("clientall"), adr, base, s_, r2, t_, r2))
+                wit.append("atts %s - - %s,%s,%d,%s,%d,%s" % (hx("clientall"), adr, base, s_, r2, t_, r2))
+                if s_ > 0:
+                    wit.append("att %s - %s %s,%d,%s,%d,%s -" % (hx("clientall"), adr, base, s_ - 1, r2, t_ + 1, r2))
+                if t_ > s_ + 2:
+                    wit.append("atts %s - - %s,%s,%d,%s,%d,%s" % (hx("clientall"), adr, base, s_ + 1, r2, t_ - 1, r2))
+            elif k == "prop" and pid == "C02":
+                r2 = "b9" * 32
+                wit.append("prop %s - %s %s,%s,%s,%s,%s,%s -" % (hx("clientall"), adr, f[0], f[1], f[2], r2, r2, r2))
+    if not wit:
+        return None
+    h2 = dict(h, ops=ops + wit)
+    engines.exec_histories(dh, wd, [h2], jobs=1)
+    bad, _ = engines.judge_slashing([h2])
+    want = {"C01": "att", "C02": "prop"}.get(pid)
+    bad = [b for b in bad if b[1] == want]
+    if not bad:
+        return None
+
+    def pred(ops_, impl, model, crashed):
+        b, _ = engines.judge_slashing([dict(h2, ops=ops_, impl=impl, model=model)])
+        return any(x[1] == want for x in b)
+    small = engines.shrink_history(dh, wd, h2, pred, max_trials=60)
+    return small, bad[0][-1]
+
+
 def judge_lines(rep, all_h, make_lines, label):
     """Generic judge: make_lines(h) yields (judge line, meta); runs them through the Lean driver."""
     lines, index = [], []
@@ -189,6 +244,14 @@ def run_hist_property(rep, tier, seed, wd, pid, kinds, opts, sizes, judges=(), e
     if first_bad is not None:
         hi, (i, op, il, ml) = first_bad
         h = all_h[hi]
+        if not found_violation and pid in ("C01", "C02") and i >= 0:
+            w = witness_search(pid, dh, wd, h, i)
+            if w is not None:
+                small, verdict = w
+                rep.violation("%s-witness" % pid, "violation search after a model/implementation disagreement: the implementation released "
+                              "signatures judged %s by the Lean Spec predicate" % verdict,
+                              {"config": h["cfg"], "ops": small, "gomaxprocs": h.get("gomaxprocs")})
+                found_violation = True
 
         def pred(ops, impl, model, crashed, kinds=kinds):
             return any(b[1].split()[0] in kinds for b in hist.compare_lines(ops, impl, model))
